@@ -31,7 +31,7 @@ macro_rules! shift_case {
     }};
 }
 
-// @verif prop=C01,C02 kernel=K5 tiers=quick,thorough timeout=1500 unwind=1 mem=12
+// @verif prop=C01,C02 kernel=K5 tiers=quick,thorough tiers_C02=thorough timeout=1500 unwind=1 mem=12
 // @verif what=SHL SHR ROL ROR on BYTE/WORD/DWORD/LWORD with any DINT count: never panic (shift amounts), and for N >= 0 the result is the IEC zero-fill shift / rotation within the operand width
 // @verif fns=stdlib::bit::{shl,shr,rol,ror,shift}, stdlib::helpers::{bit_value,mask_for,bit_value_to_result,to_i64}
 // @verif bound=every operand value of the four bit-string types, every i32 shift count
@@ -96,7 +96,7 @@ macro_rules! int_conv {
     }};
 }
 
-// @verif prop=C01,C02 kernel=K5 tiers=quick,thorough timeout=1800 unwind=1 mem=12
+// @verif prop=C01,C02 kernel=K5 tiers=quick,thorough tiers_C02=thorough timeout=1800 unwind=1 mem=12
 // @verif what=integer-to-integer conversions (<src>_TO_<dst>): a representable value is converted exactly with the destination type, every other value faults with Overflow; never a panic or a silent wrap
 // @verif fns=stdlib::conversions::{dispatch::apply_conversion,convert_with_mode,convert_value}, conversions::numeric::{convert_to_int,signed_int_from_i128,unsigned_int_from_u64}
 // @verif bound=every source value for 10 (source, destination) pairs covering narrowing, widening, signed->unsigned and unsigned->signed
@@ -145,7 +145,7 @@ macro_rules! real_conv {
     }};
 }
 
-// @verif prop=C01,C02 kernel=K5 tiers=quick,thorough timeout=2400 unwind=1 mem=16
+// @verif prop=C01,C02 kernel=K5 tiers=quick,thorough tiers_C02=thorough timeout=2400 unwind=1 mem=16
 // @verif what=LREAL to integer conversions (TO_<int> with rounding and TRUNC_<int>): never panic; NaN, infinities and values outside the destination range fault with Overflow (no silent wrap through 'as u64'); values inside the range convert to within 1 of the operand, TRUNC toward zero
 // @verif fns=stdlib::conversions::numeric::{convert_to_int,real_to_int,signed_int_from_i128,unsigned_int_from_u64}, stdlib::helpers::round_ties_to_even
 // @verif bound=every f64 bit pattern; destinations USINT, DINT, ULINT, LINT; both modes
@@ -275,7 +275,7 @@ macro_rules! bcd_case {
     }};
 }
 
-// @verif prop=C01,C02 kernel=K5 tiers=quick,thorough timeout=2400 unwind=1 mem=12 loops=u64_to_bcd:18,bcd_to_u64:18,stdlibk:18,Iterator:18
+// @verif prop=C01,C02 kernel=K5 tiers=quick,thorough tiers_C02=thorough timeout=2400 unwind=1 mem=12 loops=u64_to_bcd:18,bcd_to_u64:18,stdlibk:18,Iterator:18
 // @verif what=TO_BCD / BCD_TO: values that fit the digit count round-trip exactly and every nibble is a decimal digit; values with too many digits fault with Overflow; never a panic
 // @verif fns=stdlib::conversions::bcd::{to_bcd,from_bcd,u64_to_bcd,bcd_to_u64}
 // @verif bound=every USINT->BYTE and UINT->WORD value
@@ -401,7 +401,7 @@ macro_rules! int_to_bits {
     }};
 }
 
-// @verif prop=C01,C02 kernel=K5 tiers=quick,thorough timeout=1800 unwind=1 mem=12
+// @verif prop=C01,C02 kernel=K5 tiers=quick,thorough tiers_C02=thorough timeout=1800 unwind=1 mem=12
 // @verif what=bit-string <-> integer conversions (WORD_TO_INT, INT_TO_WORD, ...): binary transfer of the low bits (two's complement reinterpretation, masking when narrowing), never a panic or a fault
 // @verif fns=stdlib::conversions::bitstring::{convert_to_bit_string,bit_string_to_int,integer_to_bit_string,unsigned_to_bit_string,sign_extend,mask_for}
 // @verif bound=every source value for 10 (source, destination) pairs incl. same width, widening and narrowing
